@@ -112,6 +112,22 @@ def generate(seed, prop):
         pre["psd"] = {"differentiate": rng.random() < 0.7, "width": rng.choice([0.05, 0.1]),
                       "fft_n": rng.choice([None, None, 4096])}
     proc = draw_processing(rng)
+    if rng.random() < 0.12 and not many_windows:
+        # recordings stored in SI units at a quiet site (float samples of 1e-9 m/s and below), all files of the batch with
+        # the same sampling rate and length - a temporary array deployment; any comparison "up to an absolute tolerance"
+        # finds such recordings all alike
+        sc = rng.choice([4e-10, 1e-9, 1e-12, 3e-11])
+        same = rng.random() < 0.8
+        for f_ in files:
+            f_.pop("saf_rot", None)
+            f_["scale"] = sc
+            if same:
+                f_["rate"], f_["n"] = files[0]["rate"], files[0]["n"]
+        if rng.random() < 0.6:
+            for _ in range(20):
+                if proc["cls"] in ("azimuthal", "single_azimuth"):
+                    break
+                proc = draw_processing(rng)
     order = list(range(n_files))
     rng.shuffle(order)
     if rng.random() < 0.08:
@@ -146,6 +162,8 @@ def write_inputs(d, world):
                 x = g.normal(0, 1000, n) + (3000.0 if j < 2 else 800.0) * np.sin(2 * np.pi * (1.7 + 0.2 * j) * t)
                 comps["NEZ"[j]] = np.round(x).astype(np.int32)
                 tr = Trace(data=np.round(x).astype(np.int32))
+                if f.get("scale"):
+                    tr = Trace(data=(x * f["scale"] / 1000.0).astype(np.float64))      # SI units, stored as doubles
                 tr.stats.sampling_rate = float(rate)
                 tr.stats.channel = ch
                 tr.stats.station = "S"
